@@ -78,7 +78,8 @@ func.func @f(%a : {tys[0]}, %b : {tys[1]}, %c : {tys[2]}) {{
 def gemmx_src(M, N, K, i8out, lays):
     out_t = "i8" if i8out else "i32"
     ta = f"memref<{M}x{K}xi8{', ' + lays[0] if lays[0] else ''}>"
-    tb = f"memref<{K}x{N}xi8{', ' + lays[1] if lays[1] else ''}>"
+    gram = lays[1] == "gram"  # D = X * X^T: the same buffer is both operands, read through two different access maps
+    tb = ta if gram else f"memref<{K}x{N}xi8{', ' + lays[1] if lays[1] else ''}>"
     tc = f"memref<{M}x{N}x{out_t}{', ' + lays[2] if lays[2] else ''}>"
     if i8out:
         resc = """
@@ -93,7 +94,7 @@ def gemmx_src(M, N, K, i8out, lays):
     return f"""
 func.func @f(%A : {ta}, %B : {tb}, %C : {tc}) {{
   %z = arith.constant 0 : i32
-  "dart.operation"(%A, %B, %C) <{{patterns = [affine_map<(d0, d1, d2) -> (d0, d2)>, affine_map<(d0, d1, d2) -> (d2, d1)>, affine_map<(d0, d1, d2) -> (d0, d1)>], accelerator = "snax_gemmx", operandSegmentSizes = array<i32: 2, 1>}}> ({{
+  "dart.operation"(%A, {'%A' if gram else '%B'}, %C) <{{patterns = [affine_map<(d0, d1, d2) -> (d0, d2)>, affine_map<(d0, d1, d2) -> {'(d1, d2)' if gram else '(d2, d1)'}>, affine_map<(d0, d1, d2) -> (d0, d1)>], accelerator = "snax_gemmx", operandSegmentSizes = array<i32: 2, 1>}}> ({{
   ^bb0(%s0 : !dart.stream<i8>, %s1 : !dart.stream<i8>, %s2 : !dart.stream<{out_t}>):
     %g = "dart.generic"(%s0, %s1, %z, %z) <{{library_call = "snax_gemmx"}}> ({{
     ^bb1(%a : i8, %b : i8, %za : i32, %zb : i32, %acc : i32):
@@ -101,6 +102,30 @@ func.func @f(%A : {ta}, %B : {tb}, %C : {tc}) {{
       dart.yield %m : i32
     }}) : (!dart.stream<i8>, !dart.stream<i8>, i32, i32) -> !dart.stream<i32>{resc}
   }}) : ({ta}, {tb}, {tc}) -> ()
+  func.return
+}}
+"""
+
+
+def gemm4_src(ta, tb, tc, td):
+    """D = A*B + C on snax_gemmx (four operands, i32 output)"""
+    return f"""
+func.func @f(%A : {ta}, %B : {tb}, %C : {tc}, %D : {td}) {{
+  %z = arith.constant 0 : i32
+  "dart.operation"(%A, %B, %C, %D) <{{patterns = [affine_map<(d0, d1, d2) -> (d0, d2)>, affine_map<(d0, d1, d2) -> (d2, d1)>, affine_map<(d0, d1, d2) -> (d0, d1)>, affine_map<(d0, d1, d2) -> (d0, d1)>], accelerator = "snax_gemmx", operandSegmentSizes = array<i32: 3, 1>}}> ({{
+  ^bb0(%s0 : !dart.stream<i8>, %s1 : !dart.stream<i8>, %s2 : !dart.stream<i32>, %s3 : !dart.stream<i32>):
+    %g = "dart.generic"(%s0, %s1, %z, %z) <{{library_call = "snax_gemmx"}}> ({{
+    ^bb1(%a : i8, %b : i8, %za : i32, %zb : i32, %acc : i32):
+      %m = kernel.qmac %a, %b zp_lhs : %za zp_rhs : %zb : i8, i8, i32, i32 -> i32
+      dart.yield %m : i32
+    }}) : (!dart.stream<i8>, !dart.stream<i8>, i32, i32) -> !dart.stream<i32>
+    %h = "dart.generic"(%g, %s2) <{{library_call = "snax_gemmx"}}> ({{
+    ^bb2(%p : i32, %q : i32, %o : i32):
+      %r = kernel.add %p, %q : i32, i32 -> i32
+      dart.yield %r : i32
+    }}) : (!dart.stream<i32>, !dart.stream<i32>) -> !dart.stream<i32>
+    dart.yield %h : !dart.stream<i32>
+  }}) : ({ta}, {tb}, {tc}, {td}) -> ()
   func.return
 }}
 """
@@ -245,7 +270,12 @@ def check(src, acc_name, pre_passes, set_layout, what):
         cands = [o for o, s in enumerate(ap["ptr_sources"]) if s is st["source"]]
         if not cands:
             continue
-        o = cands[-1] if len(cands) > 1 and k >= len(streams) - 1 else cands[0]
+        if len(cands) > 1 and k < len(streams) - 1:
+            # the same buffer passed several times: the j-th stream reading it stands for its j-th occurrence
+            earlier = sum(1 for k2 in range(k) if streams[k2]["source"] is st["source"] and any(streams[k2]["ub"]))
+            o = cands[min(earlier, len(cands) - 1)]
+        else:
+            o = cands[-1] if len(cands) > 1 else cands[0]
         strides = ap["strides"][o]
         el = sched["types"][o].element_type.size
         # schedule side
@@ -308,6 +338,9 @@ def case_pipeline(case):
     elif kind == "gemmx":
         _, (M, N, K), i8out, lays, setl = case
         src, acc, pre = gemmx_src(M, N, K, i8out, lays), "snax_gemmx", ["dart-scheduler"]
+    elif kind == "gemm4":
+        _, ta, tb, tc, td = case
+        src, acc, pre, setl = gemm4_src(ta, tb, tc, td), "snax_gemmx", ["dart-scheduler"], None
     else:
         _, TA, TB, TD, mt = case
         src, acc, pre, setl = direct_schedule_src(TA, TB, TD, mt), "snax_gemmx", [], None
@@ -366,6 +399,21 @@ def run(chk):
             if not quick:
                 cases.append(("gemmx", shp, i8out, (None, None, None), "flat"))
         cases.append(("gemmx", shp, False, (f"strided<[{K}, 1], offset: 16>", f"strided<[1, {K}]>", None), None))
+    # D = A*B + C (four operands): C tile-contiguous, row-major, tiles with a gap between rows (the last two cannot be
+    # streamed by this streamer configuration: the compiler has to refuse them or get them right)
+    def rt(r, c, el):
+        return f"memref<{r}x{c}x{el}, #tsl.tsl<[{r // 8}, 8] -> ({64 * (c // 8)}, 8), [{c // 8}, 8] -> (64, 1)>>"
+
+    def ct(r, c, el):
+        return f"memref<{r}x{c}x{el}, #tsl.tsl<[{r // 8}, 8] -> (64, 1), [{c // 8}, 8] -> ({64 * (r // 8)}, 8)>>"
+
+    for M, N, K in ((16, 16, 16), (8, 16, 8)) + (() if quick else ((16, 8, 24), (24, 16, 8))):
+        for tc in (rt(M, N, "i32"), f"memref<{M}x{N}xi32>", f"memref<{M}x{N}xi32, #tsl.tsl<[{M // 8}, 8] -> ({128 * (N // 8)}, 16), [{N // 8}, 8] -> (128, 1)>>"):
+            cases.append(("gemm4", rt(M, K, "i8"), ct(K, N, "i8"), tc, rt(M, N, "i32")))
+    # the same buffer as both inputs with different access maps (Gram matrix X * X^T)
+    for M, K in ((16, 16), (8, 24), (24, 8)) + (() if quick else ((32, 16), (16, 64))):
+        for i8out in (False, True):
+            cases.append(("gemmx", (M, M, K), i8out, (None, "gram", None), None))
     # seeded family: random multiples of the 8x8x8 tile, random operand layouts (row/column major, padded rows, offsets)
     for _ in range(30 if quick else 300):
         M, N, K = (8 * rnd.randint(1, 8) for _ in range(3))
